@@ -7,7 +7,7 @@ from __future__ import annotations
 from typing import Any, Dict, List, Optional, Set, Tuple
 
 from ..loader import Project, AnalysisError
-from ..engines.abseval import Unsupported, AbsRaise, Mat, Vec
+from ..engines.abseval import Unsupported, AbsRaise, Mat, Vec, IndexOut, LoopBound
 from ..engines.instances import Runtime, Instance
 from ..engines.stdlib import install
 
@@ -41,6 +41,10 @@ class World:
             return ("ok", fn(*args, **kw))
         except AbsRaise as r:
             return ("raise", r.exc_name.split(".")[-1])
+        except IndexOut:
+            return ("raise", "IndexError")
+        except LoopBound:
+            return ("raise", "<does not terminate>")
         except Unsupported as exc:
             raise AnalysisError(f"{what}: unsupported construct at line {getattr(exc.node, 'lineno', '?')}: {exc}")
 
